@@ -276,6 +276,19 @@ def rule_AI6(rep, prog):
             if len(lf) == 2 and loads and len(negs) == 1:
                 X = negs[0]
     if X is None:
+        # the origin of the first record IS moved (from += offset) but its length is not reduced by the same amount: the first record of the result is too long
+        fadj = []
+        for st in fn.all_insts():
+            if st.op == "store" and prog.fields(st) == {"from"} and root_ptr(fn, st.d["ptr"]["base"]) in allocs:
+                lf = linform(fn, st.ops[0])
+                if len(lf) == 2 and any(isinstance(a, tuple) and a[0] == "i" and fn.insts[a[1]].op == "load" and "from" in prog.fields(fn.insts[a[1]]) for a in lf):
+                    fadj.append(st)
+        if fadj:
+            rep.violation(rid, fadj[0].loc, fn.name, "first-record-length-not-reduced",
+                          "dispatch_data_create_subrange advances the first record's `from` by the in-record offset but does not reduce that record's length by the same "
+                          "amount: the result's records cover more bytes than its size - consumers that walk the records (apply, map, the I/O write path's unwritten "
+                          "tail) read past the intended range")
+            return
         rep.unknown(rid, "first-record adjustment (records[0].length -= offset) not found in dispatch_data_create_subrange")
         return
     cands = []
@@ -295,6 +308,108 @@ def rule_AI6(rep, prog):
                     "dispatch_data_create_subrange computes the bytes left after the first record as %s: the in-record offset must be ADDED back (the first record "
                     "contributes records[i].length - offset bytes); otherwise the result's records cover fewer bytes than its size (or the count wraps)"
                     % {("%%%d" % k_[1] if isinstance(k_, tuple) else k_): v for k_, v in lf.items()}, sample={"at": i.loc})
+
+
+def edge_relations(fn, cx):
+    """order facts known on a path / at a point, normalised to (\"ult\"|\"ule\", A, B) meaning A < B / A <= B (operands as (kind, id) tuples)"""
+    out = []
+    for cid, tv in cx.truth.items():
+        t = fn.insts[cid]
+        if t.op != "icmp" or t.d["pred"] not in ("ult", "ule", "ugt", "uge"):
+            continue
+        a, b = tuple(t.ops[0][:2]), tuple(t.ops[1][:2])
+        pred = t.d["pred"]
+        if not tv:
+            pred = {"ult": "uge", "ule": "ugt", "ugt": "ule", "uge": "ult"}[pred]
+        if pred in ("ugt", "uge"):
+            a, b = b, a
+            pred = {"ugt": "ult", "uge": "ule"}[pred]
+        out.append((pred, a, b))
+    return out
+
+
+def rule_AI10(rep, prog):
+    rid = rep.rule("C13-AI10", "the record walks tile the byte string exactly: dispatch_data_apply advances the running offset by the LENGTH of the record it just "
+                   "visited (not by the leaf's size, nor from + length); copy_region descends into a record only when location < offset + record length (strictly: a "
+                   "location on a record boundary belongs to the NEXT record); create_subrange keeps walking to the next record only while strictly more bytes "
+                   "remain than the current record holds (no empty trailing record)", floor=3)
+    # 1. apply
+    fn = prog.fn("_dispatch_data_apply")
+    rep.saw(fn)
+    rec = [c for c in calls_named(fn, "_dispatch_data_apply")]
+    n = 0
+    for c in rec:
+        off = fn.inst(c.ops[1])
+        if off is None or off.op != "phi":
+            continue
+        objl = fn.inst(list(root_ptr(fn, c.ops[0])))
+        for v, frm in off.ops:
+            if not fn.dominates(off, fn.blocks[frm].term):
+                continue
+            n += 1
+            lf = linform(fn, v)
+            rest = {a: co for a, co in lf.items() if a != ("i", off.id)}
+            ok = lf.get(("i", off.id)) == 1 and len(rest) == 1
+            if ok:
+                (a, co), = rest.items()
+                l = fn.insts.get(a[1]) if isinstance(a, tuple) and a[0] == "i" else None
+                ok = co == 1 and l is not None and l.op == "load" and prog.fields(l) == {"length"} and objl is not None and \
+                    root_ptr(fn, l.d["ptr"]["base"]) == root_ptr(fn, objl.d["ptr"]["base"])
+            rep.require(rid, ok, c.loc, fn.name, "apply-offset-advance",
+                        "_dispatch_data_apply advances the offset reported to the applier by %s after visiting a record: it must advance by exactly that record's "
+                        "length - with from + length, or the size of the underlying leaf, every region after a record that is a partial view of its leaf is reported "
+                        "at an inflated offset: the regions no longer tile the string (and dispatch_data_create_map / the transforms write past their buffers)"
+                        % {("%%%d" % k_[1] if isinstance(k_, tuple) else k_): v_ for k_, v_ in lf.items()}, sample={"call": c.loc})
+    if n < 1:
+        rep.unknown(rid, "loop-carried offset of _dispatch_data_apply not found")
+    # 2. copy_region: strict containment before descending
+    fn = prog.fn("_dispatch_data_copy_region")
+    rep.saw(fn)
+    LOC = ("a", 3)
+    desc = [c for c in calls_named(fn, "_dispatch_data_copy_region")]
+    if not desc:
+        rep.unknown(rid, "no recursive descent in _dispatch_data_copy_region")
+    for c in desc:
+        cx = paths.dom_ctx(fn, c)
+        rel = edge_relations(fn, cx)
+        ok = False
+        for pred, a, b in rel:
+            if pred == "ult" and a == LOC and b[0] == "i":
+                lf = linform(fn, list(b))
+                if any(isinstance(k_, tuple) and k_[0] == "i" and fn.insts[k_[1]].op == "phi" and co == 1 for k_, co in lf.items()) and \
+                   any(isinstance(k_, tuple) and k_[0] == "i" and fn.insts[k_[1]].op == "load" and "length" in prog.fields(fn.insts[k_[1]]) and co == 1 for k_, co in lf.items()):
+                    ok = True
+        rep.require(rid, ok, c.loc, fn.name, "copy-region-boundary",
+                    "_dispatch_data_copy_region descends into a record without having established location < offset + (bytes of that record) strictly (known: %s): a "
+                    "location that is the first byte of the next record is attributed to the previous one - the returned region does not contain the requested "
+                    "location" % [(p_, a, b) for p_, a, b in rel if LOC in (a, b)], sample={"call": c.loc})
+    # 3. create_subrange: continue to the next record only while remaining > record length (strict)
+    fn = prog.fn("dispatch_data_create_subrange")
+    rep.saw(fn)
+    m = 0
+    for ph in fn.all_insts():
+        if ph.op != "phi" or ph.d.get("ty") != "i64":
+            continue
+        if any(tuple(v[:2]) == ("a", 1) for v, frm in ph.ops):
+            continue          # the walk to the START record carries the caller's offset: there `offset >= record length` (non-strict) is the skip test
+        for v, frm in ph.ops:
+            sb = fn.inst(v)
+            if sb is None or sb.op != "sub" or tuple(sb.ops[0][:2]) != ("i", ph.id) or not fn.dominates(ph, fn.blocks[frm].term):
+                continue
+            l = fn.inst(sb.ops[1])
+            if l is None or l.op != "load" or "length" not in prog.fields(l):
+                continue
+            m += 1
+            cx = paths.dom_ctx(fn, sb)
+            rel = edge_relations(fn, cx)
+            ok = ("ult", ("i", l.id), ("i", ph.id)) in rel
+            rep.require(rid, ok, sb.loc, fn.name, "subrange-end-record-boundary",
+                        "dispatch_data_create_subrange moves on to the next record (remaining -= record length) without having established record length < remaining "
+                        "strictly (known: %s): a range that ends exactly on a record boundary gets an extra trailing record of length 0 - dispatch_data_apply then "
+                        "delivers an empty region at offset == size and per-region consumers run their end-of-data step twice"
+                        % [r_ for r_ in rel if ("i", ph.id) in (r_[1], r_[2])], sample={"sub": sb.loc})
+    if m < 1:
+        rep.unknown(rid, "remaining-length walk of dispatch_data_create_subrange not found")
 
 
 def rule_BD7(rep, prog):
@@ -426,6 +541,39 @@ def rule_SB9(rep, prog):
     rep.require(rid, okf, fnf.file + ":" + str(fnf.d.get("line")), fnf.name, "create-f-delegates",
                 "dispatch_data_create_f must hand its buffer and size unchanged to dispatch_data_create and return that result on every path (the destructor "
                 "obligations are discharged there)", sample={"delegations": len(dl)})
+    # ... and every destructor sentinel - DEFAULT (NULL: copy the bytes), FREE, NONE, INLINE - is handed through unchanged; only a real function is wrapped
+    sent = {}
+    for l in fnf.all_insts():
+        if l.op == "load" and l.d.get("ptr") and l.d["ptr"]["base"][0] == "g" and "_dispatch_data_destructor_" in str(l.d["ptr"]["base"][1]):
+            sent.setdefault(l.d["ptr"]["base"][1], []).append(l)
+    if not dl or len(sent) < 2:
+        rep.unknown(rid, "anchor vanished: dispatch_data_create_f does not compare its destructor with the sentinel destructors (%d)" % len(sent))
+    else:
+        fake = {g_: 0x1000 * (k_ + 1) for k_, g_ in enumerate(sorted(sent))}
+        cases = [("DISPATCH_DATA_DESTRUCTOR_DEFAULT", 0, True)] + [(g_, a_, True) for g_, a_ in sorted(fake.items())] + [("a client function", 0x777000, False)]
+        for nm, val, passthrough in cases:
+            env = {("a", 3): val}
+            for g_, ls in sent.items():
+                for l in ls:
+                    env[l.id] = fake[g_]
+            hit, env = concrete_walk(fnf, env, lambda i: i in dl)
+            if hit is None:
+                rep.unknown(rid, "could not follow dispatch_data_create_f concretely for destructor %s" % nm)
+                continue
+            d = hit.ops[3]
+            dv = env.get(d[1]) if d[0] == "i" else None
+            cv = ceval(fnf, d, {k_: v_ for k_, v_ in env.items() if not isinstance(v_, tuple)})
+            dres = dv[1] if isinstance(dv, tuple) else tuple(d[:2])
+            ri = fnf.inst(list(dres)) if dres[0] == "i" else None
+            while ri is not None and ri.op == "bitcast":
+                dres = tuple(ri.ops[0][:2])
+                ri = fnf.inst(list(dres)) if dres[0] == "i" else None
+            wrapped = ri is not None and ri.op == "alloca"
+            same = not wrapped and (cv == val or dres == ("a", 3))
+            rep.require(rid, (same and not wrapped) if passthrough else wrapped, hit.loc, fnf.name, "create-f-destructor:%s" % nm,
+                        "dispatch_data_create_f called with destructor %s %s: the sentinels must reach dispatch_data_create unchanged (a NULL destructor means 'copy the "
+                        "bytes' - wrapped in a block the object aliases the caller's buffer and the wrapper later calls a NULL function), a real function must be "
+                        "wrapped" % (nm, "wraps it in a block" if wrapped else "passes it through"), sample={"destructor": nm, "wrapped": not passthrough})
     for name in ("dispatch_data_create",):
         fn = prog.fn(name)
         rep.saw(fn)
@@ -506,6 +654,8 @@ def run(rep, tier="quick", srcdir=None, only=None):
         rule_BD7(rep, prog)
     if want("C13-SB9"):
         rule_SB9(rep, prog)
+    if want("C13-AI10"):
+        rule_AI10(rep, prog)
     if want("C13-SB8"):
         rule_SB8(rep, prog)
 
